@@ -75,14 +75,17 @@ FAMILIES = {
     "nested-structure-refs": (2, lambda n: wrap(["x = " + "%".join("c%d(i)" % i for i in range(n + 1))])),
     "nested-if-stmt-in-do": (2, lambda n: nest(lambda i: "do i%d = 1, 2\nif (a > %d) a = %d" % (i, i, i), lambda i: "end do", n)),
 }
-STD = {"nested-block": "f2008", "nested-mixed": "f2008"}
+F2008_ONLY = {"nested-block", "nested-mixed"}
+# families measured under BOTH standards (the two parsers use different rule
+# classes for DO constructs, so an optimisation can be lost in one of them)
+BOTH_STDS = {f for f in FAMILIES if "do" in f or "loops" in f or f in ("nested-if", "repeated-assignments", "nested-references", "flat-sum")}
 
 
 class Cap(BaseException):
     pass
 
 
-def measure(family, n, cap):
+def measure(family, n, cap, std="f2008"):
     """runs in a forked child: returns (count, outcome)"""
     import logging
 
@@ -91,7 +94,6 @@ def measure(family, n, cap):
     from fparser.common.readfortran import FortranStringReader
     from fparser.two.utils import Base
 
-    std = STD.get(family, "f2003")
     p = ParserFactory().create(std=std)
     # identical warm-up for every measurement
     p(FortranStringReader("subroutine warm\n a = b + c(1)\n if (a > 0) then\n a = 1\n end if\nend subroutine warm\n"))
@@ -119,7 +121,12 @@ def measure(family, n, cap):
 
 
 def plan(tier, seed):
-    return [(tier, fam) for fam in sorted(FAMILIES)]
+    out = []
+    for fam in sorted(FAMILIES):
+        out.append((tier, fam, "f2008"))
+        if fam in BOTH_STDS and fam not in F2008_ONLY:
+            out.append((tier, fam, "f2003"))
+    return out
 
 
 def judge(counts, degree):
@@ -141,18 +148,18 @@ def judge(counts, degree):
 
 
 def run(task):
-    tier, fam = task
+    tier, fam, std = task
     b = BOUNDS[tier]
     res = Result()
     degree = FAMILIES[fam][0]
     counts = {}
     capped_at = None
     for n in range(1, b["N"] + 1):
-        cnt, outcome = forktree.run_isolated(measure, fam, n, b["cap"])
+        cnt, outcome = forktree.run_isolated(measure, fam, n, b["cap"], std)
         res.evals += 1
         res.transitions += 1
-        res.states.add(h64(fam, str(n)))
-        res.nontrivial.add(h64(fam, str(n)))
+        res.states.add(h64(fam, std, str(n)))
+        res.nontrivial.add(h64(fam, std, str(n)))
         res.outcomes[outcome] += 1
         if outcome == "cap":
             capped_at = n
@@ -162,14 +169,14 @@ def run(task):
             break
         counts[n] = cnt
         res.results.add(h64(fam, str(cnt)))
-    res.extra["coverage"] = {"counts": {fam: [counts.get(n) for n in range(1, b["N"] + 1)]}}
+    res.extra["coverage"] = {"counts": {fam + "@" + std: [counts.get(n) for n in range(1, b["N"] + 1)]}}
     v = judge(counts, degree)
     if capped_at is not None:
-        res.caps.append("family %s: call-count cap %d hit at n=%d" % (fam, b["cap"], capped_at))
+        res.caps.append("family %s (%s): call-count cap %d hit at n=%d" % (fam, std, b["cap"], capped_at))
         if v is None:
             v = ("superpolynomial", "call-count cap %d exceeded at n=%d (count(%d)=%d)" % (b["cap"], capped_at, capped_at - 1, counts.get(capped_at - 1, -1)))
     if v:
-        res.violation("C20|%s|%s" % (v[0], fam), "family %s (declared degree %d): %s\ncounts: %s\n--- f(3):\n%s" % (fam, degree, v[1], [counts.get(n) for n in range(1, b["N"] + 1)], FAMILIES[fam][1](3)), {"family": fam, "tier": tier}, cost=0)
+        res.violation("C20|%s|%s" % (v[0], fam), ("family %%s (%s, declared degree %%d): %%s\ncounts: %%s\n--- f(3):\n%%s" % std) % (fam, degree, v[1], [counts.get(n) for n in range(1, b["N"] + 1)], FAMILIES[fam][1](3)), {"family": fam, "tier": tier, "std": std}, cost=0)
     res.sample({"family": fam, "counts": [counts.get(n) for n in range(1, min(b["N"], 8) + 1)], "f(2)": FAMILIES[fam][1](2)})
     return res
 
@@ -181,5 +188,5 @@ def finish(res, tier, seed):
 
 
 def replay(case):
-    r = run((case["tier"], case["family"]))
+    r = run((case["tier"], case["family"], case.get("std", "f2008")))
     return [{"sig": v["sig"], "detail": v["detail"]} for v in r.violations]
